@@ -36,6 +36,16 @@ def single_slot(tier):
             cases.append(("slot:literal", st, ("el", "div", [], [("el", "p", [], [("text", s)]), ("el", "span", [("a", "title", s)], []),
                                                                  ("el", "i", [("a", "data-x", s)], [("text", s)])])))
             cases.append(("slot:literal", st, ("el", "div", [("a", "title", s)], [("text", s), ("el", "b", [("a", "lang", s)], [])])))
+    # ADJACENT static text nodes (no marker between them) whose concatenation reads as a character reference, a comment or a tag
+    # although neither part does: each node must be escaped on its own (seed C08-f)
+    heads = ["&", "x &", "a&", "&#", "&#6", "&l", "&am", "&amp", "<", "<!", "<!-", "</", "-", "--"]
+    tails = ["amp;", "lt;", "lt", "gt;x", "#60;", "#x3c;", "0;", "t;", "p;", ";", "!--", "--", "->", ">", "p>", "/p>", "script>"]
+    for a in heads:
+        for b in tails:
+            st = {"s": {}, "b": {}, "l": {}}
+            cases.append(("slot:adjacent", st, ("el", "p", [], [("text", a), ("text", b)])))
+    for a, b, c in (("a&", "#60;", "b"), ("AT&", "T&", "amp;T"), ("<", "!--", "x-->"), ("&", "l", "t;")):
+        cases.append(("slot:adjacent", {"s": {}, "b": {}, "l": {}}, ("el", "div", [], [("text", a), ("text", b), ("text", c)])))
     return cases
 
 
